@@ -644,7 +644,15 @@ class Exec:
             env[x.i] = self.val(x.a[0]); return            # replication of an 8-bit alpha into another channel
         if op == 'or':
             a, b = self.val(x.a[0]), self.val(x.a[1])
-            env[x.i] = a if (_is_expr(a) and _is_expr(b) and sympy.expand(a - b) == 0) else None; return
+            if isinstance(a, tuple) and a and a[0] == 'bor':
+                a = a[1]
+            if isinstance(b, tuple) and b and b[0] == 'bor':
+                b = b[1]
+            same = _is_expr(a) and _is_expr(b) and sympy.expand(a - b) == 0
+            if same and a.free_symbols and x.a[0] != x.a[1] and self._only_compared(x):
+                # the values of several pixels or-ed together: "== 0" says all are 0, but "== 0xff" says nothing about each of them
+                env[x.i] = ('bor', a); return
+            env[x.i] = a if same else None; return
         if op == 'icmp':
             env[x.i] = None; return
         if op == 'select':
@@ -766,6 +774,17 @@ class Exec:
                 continue
             a, b = self.val(t.a[0]), self.val(t.a[1])
             if _is_expr(a) and _is_expr(b):
+                # the carry lives in bit 8 of t: if t is narrowed to 8 bits on its way to the shift, t >> 8 is 0 and the sum wraps
+                o = sh.a[0]; narrowed = False
+                while o[0] == 'v':
+                    y = self.f.by_id[o[1]]
+                    if y.op == 'trunc' and y.ty in ('i8', 'i1'):
+                        narrowed = True
+                    if y.op not in ('trunc', 'zext', 'sext'):
+                        break
+                    o = y.a[0]
+                if narrowed:
+                    return sympy.Function('wrapped_mod_256')(sympy.expand(a + b))
                 return sympy.expand(a + b)
         return None
 
@@ -788,6 +807,21 @@ class Exec:
                     if _is_expr(a) and _is_expr(b):
                         return sympy.expand(a * b)
         return None
+
+    def _only_compared(self, x, d=0):
+        """every use of x (through casts, or-s and masks with a constant) is a comparison"""
+        us = self.f.users(x)
+        if not us or d > 6:
+            return False
+        for u_ in us:
+            if u_.op == 'icmp':
+                continue
+            if u_.op in ('zext', 'sext', 'trunc', 'or') or (u_.op == 'and' and any(o[0] == 'c' for o in u_.a)):
+                if not self._only_compared(u_, d + 1):
+                    return False
+                continue
+            return False
+        return True
 
     def decide(self, t):
         """('const', bool) | ('assume', subs_true, subs_false) | ('pixelcond',) | None"""
@@ -821,6 +855,13 @@ class Exec:
                 if sub is None:
                     return ('pixelcond',)
                 return ('assume', sub, {}) if pred == 'ne' else ('assume', {}, sub)
+            if isinstance(l, tuple) and l and l[0] == 'bor' and _is_expr(r) and r.is_Integer and pred in ('eq', 'ne'):
+                if int(r) == 0:
+                    sub = _zero_subs(l[1])
+                    if sub is None:
+                        return ('pixelcond',)
+                    return ('assume', sub, {}) if pred == 'eq' else ('assume', {}, sub)
+                return ('assume', {}, {})      # understood, and worthless: an or of several pixels equal to all-ones does not make each of them all-ones
             if _is_expr(l) and _is_expr(r) and r.is_Integer and l.free_symbols:
                 k = int(r)
                 if k == 0 and l == M and getattr(self, 'mask_bits', False) and pred in ('eq', 'ne'):
